@@ -640,7 +640,7 @@ func main() {
 		{"pwr/bowl/bowl_overlay.go", "overlayBowl.applyMoves"}, {"pwr/bowl/bowl_overlay.go", "overlayBowl.applyOverlays"}, {"pwr/bowl/bowl_overlay.go", "overlayBowl.deleteGhosts"},
 		{"pwr/bowl/bowl_overlay.go", "overlayBowl.ensureDirsAndSymlinks"}, {"pwr/bowl/bowl_overlay.go", "detectGhosts"},
 		{"pwr/bowl/bowl_overlay.go", "overlayEntryWriter.Resume"}, {"pwr/bowl/bowl_overlay.go", "overlayEntryWriter.Save"},
-		{"pwr/overlay/overlay_writer.go", "overlayProcessor.write"}, {"pwr/overlay/overlay_writer.go", "overlayProcessor.Write"}, {"pwr/overlay/overlay_patch.go", "OverlayPatchContext.Patch"},
+		{"pwr/overlay/overlay_writer.go", "overlayProcessor.write"}, {"pwr/overlay/overlay_writer.go", "overlayProcessor.Write"}, {"pwr/overlay/overlay_patch.go", "OverlayPatchContext.Patch"}, {"pwr/overlay/overlay_writer.go", "NewOverlayWriter"}, {"pwr/overlay/overlay_writer.go", "overlayWriter.Flush"}, {"pwr/overlay/overlay_writer.go", "overlayWriter.Finalize"},
 		{"pwr/rediff/rediff.go", "context.analyzePatch"}, {"pwr/rediff/rediff.go", "context.Optimize"},
 		{"bsdiff/diff.go", "DiffContext.Do"}, {"bsdiff/diff.go", "DiffContext.writeMessages"}, {"bsdiff/patch.go", "IndividualPatchContext.Apply"}, {"bsdiff/patch.go", "PatchContext.Patch"},
 		{"bsdiff/psa.go", "NewPSA"}, {"bsdiff/psa.go", "PSA.search"}, {"bsdiff/adder_reader.go", "AdderReader.Read"},
